@@ -508,13 +508,37 @@ VH_FAMILY(mutants)
   const Base* b = nullptr;
   c11m::Mutant m;
   const std::uint64_t nsm = P.smallest.size();
-  if(c.k < 100 * nsm && (c.k % 10) != 9)
+  if(c.k < 100 * nsm && (c.k % 10) != 9 && (c.k % 10) != 8)
   {
     // edge corpus: truncation after every line of the smallest base texts
     b = &P.mesh[P.smallest[c.k % nsm]];
     std::uint64_t li = c.k / nsm; std::uint64_t seen = 0; const c11m::Line* ln = nullptr;
     for(auto& l : b->doc.lines) if(l.kind != c11m::L_BLANK) { if(seen == li) { ln = &l; break; } ++seen; }
     if(ln != nullptr) { c11m::Engine e(b->doc, c.rng, m); e.truncate_at(c.rng.coin(0.5) ? ln->end : ln->beg + c.rng.below(ln->end - ln->beg + 1), "truncate:line"); }
+  }
+  if(m.kind.empty() && (c.k % 10) == 8)
+  {
+    // attribute sweep: case 10*j+8 deletes the j-th attribute (counted over all markups of all smallest base texts, then
+    // over the other base texts; wraps around) -- a missing attribute must be rejected or be harmless, never a crash
+    std::vector<const Base*> order; for(std::uint64_t q : P.smallest) order.push_back(&P.mesh[q]);
+    for(auto& bb : P.mesh) if(std::find(order.begin(), order.end(), &bb) == order.end()) order.push_back(&bb);
+    std::uint64_t total = 0; for(auto* bb : order) for(auto& l : bb->doc.lines) if(l.kind == c11m::L_OPEN || l.kind == c11m::L_CLOSED) total += l.attrs.size();
+    if(total > 0)
+    {
+      std::uint64_t j = (c.k / 10) % total;
+      for(auto* bb : order)
+      {
+        bool done = false;
+        for(int i = 0; i < int(bb->doc.lines.size()) && !done; ++i)
+        {
+          const auto& l = bb->doc.lines[std::size_t(i)];
+          if(l.kind != c11m::L_OPEN && l.kind != c11m::L_CLOSED) continue;
+          if(j < l.attrs.size()) { b = bb; c11m::Engine e(bb->doc, c.rng, m); if(!e.attr_delete_at(i, int(j))) m.kind.clear(); else c.tag("attr_sweep"); done = true; }
+          else j -= l.attrs.size();
+        }
+        if(done) break;
+      }
+    }
   }
   if(m.kind.empty())
   {
